@@ -41,7 +41,7 @@ CLAIMED = {
     "C11": (SIM + " with fault injection: real WordAdapter over a simulated byte device (SimDisk) with seeded fault plans (short reads/writes at every byte limit, Interrupted, Ok(0), hard errors, seek errors, full device, trailing partial word); conservation oracle over the recorded device history",
             "fault_enumeration",
             "The first fault of each faulting run is placed systematically (call index = run/15 mod calls, byte limit cycling through 1..word bytes-1) so that every call index and per-call limit is hit across runs; further benign faults at a swarm-randomised rate. Oracle: bytes acknowledged with Ok are on the device exactly once and in order; an error leaves the acknowledged bytes plus at most a prefix of the failed word; words read equal successive device chunks; a trailing partial word is an error; word_pos = words transferred; fault-free runs must succeed; after a failed read or write, checking resumes at the next successful absolute seek (seeking to a word position addresses that word). 'Trickle' plans make nearly every call short or interrupted. Bit-level reads include table-driven codes (known finding: a hard error inside the look-ahead is swallowed by the table readers).",
-            TRUST + " Nothing is asserted about a stream between an error and the next successful seek. Word positions up to 2^62 bytes are exercised fault-free over a sparse byte source (1 run in 25); a word_pos() reported after a failed read/write (direct wrap) must equal the device byte position in words, rounded down or up.", "DESIGN.md §4 C11, §9.6 rounds 5-6"),
+            TRUST + " Nothing is asserted about a stream between an error and the next successful seek. Word positions up to 2^62 bytes are exercised fault-free over a sparse byte source (1 run in 25); a word_pos() reported after a failed read/write (direct wrap) must equal the device byte position in words, rounded down or up; a flush that failed only in the sink\x27s own flush is retried once and must not duplicate bytes.", "DESIGN.md §4 C11, §9.6 rounds 5-6"),
     "C12": (SIM + ": histories interleaving io::Write::write/write_all and io::Read::read of slices of every length class with bit operations at every bit offset, writer words u8..u128, all reader kinds",
             "exploration",
             "The model stream gains / yields exactly the slice bytes in stream order at the current position; the call reports the whole slice; no panic. Scale: slices up to 70 001 bytes (1 slice in 250) and single slices / read buffers of 512 KiB-1 .. 1 MiB+7 (1 run in 750). The address alignment of the slices and read buffers handed to the library (offset 0..7 from an 8-byte aligned address) is a scenario input.",
@@ -57,7 +57,7 @@ CLAIMED = {
             TRUST, "DESIGN.md §4 C14, §9.6 rounds 5-6"),
     "C15": ("deterministic simulation of thread schedules: shuttle (seeded random and PCT schedulers, replayable schedule) runs 2-4 simulated threads plus an observer on one shared CodesStatsWrapper whose Mutex is shuttle's through a cfg-guarded import; snapshots are decoded (base-4 digits of the unary total) into per-value update counts and checked for exactness and real-time order; totals against real encoded sizes",
             "exploration",
-            "Per case 20 (quick) / 60 (thorough) schedules: every snapshot must be the exact sum over the per-value update counts encoded in its unary total (no torn update; values may repeat, also across threads), contain all updates completed before it and none invoked after it; after join every per-code total equals the real encoded size measured from the writer's output (pins the index->parameter mapping); merged partial statistics (add, +=, +, sum, multiplicities; default family sizes and CodesStats<3,5,2,6,4>) equal the union; best_code has the minimum total and its real cost. Every schedule ends with writes through the wrapper into a full fixed slice and reads from an exhausted strict stream: a failed call must leave count and totals unchanged. A failing schedule is pinned in the replay file.",
+            "Per case 20 (quick) / 60 (thorough) schedules: every snapshot must be the exact sum over the per-value update counts encoded in its unary total (no torn update; values may repeat, also across threads), contain all updates completed before it and none invoked after it; after join every per-code total equals the real encoded size measured from the writer's output (pins the index->parameter mapping); merged partial statistics (add, +=, +, sum, multiplicities; default family sizes and CodesStats<3,5,2,6,4>) equal the union; best_code has the minimum total and its real cost. Every schedule ends with writes through the wrapper into a full fixed slice and reads from an exhausted strict stream: a failed call (static and dynamic dispatch paths in turn) must leave count and totals unchanged. A failing schedule is pinned in the replay file.",
             "Trusts shuttle's scheduler and Mutex model; the only lock in the crate is the one replaced through the hook. Sizes for (code, value) pairs with unary parts above 20000 bits are not measured.",
             "DESIGN.md §4 C15"),
     "C19": ("deterministic configuration replay: the same seeded histories of families C01 C02 C03 C05 C07 C08 C09 C12 C13 C14 C18 (clean arguments) are executed by 6 (quick) / 8 (thorough) builds of the crate (features default/checks/no_copy_impls/both x release/debug-assertions+overflow-checks) and the per-run event-log digests are diffed; exhaustive C19W family for the checks assertion",
